@@ -11,6 +11,10 @@ CLAIMED = {
  "C02": ("§6 C02", "For every frame with <= 3 (quick) / 4 (thorough) rows over the listed dtypes and for ALL cell values, masks, index vectors and n, each of the nine subsetting methods returns exactly the reference row-id list with bit-identical cells; decided by the solver per path, not sampled."),
  "C03": ("§6 C03", "For every frame within the bounds and ALL cell values, sort returns a permutation with identical cells, ordered lexicographically by the keys in the requested directions, stable, missing keys together (last when ascending), and does not raise; outside the two recorded known-finding regions."),
  "C04": ("§6 C04", "For every frame within the bounds and ALL key/value cells, aggregate/count/split/grouped modify use exactly the partition into classes of equal keys (missing = own class), ascending, rows in original order, and helper shorthand equals the lambda form; outside the recorded known-finding regions."),
+ "C01": ("§6 C01", "Constructor/assignment broadcast arithmetic for all length combinations within the bounds (succeeds iff every length is 1 or the maximum, rejected values leave the frame unchanged), one public operation from an arbitrary valid frame with awkward column names, and all in-place edit histories of depth <= 2 (quick) / 3 (thorough): every reachable frame satisfies the rectangularity invariant and key/attribute coherence."),
+ "C06": ("§6 C06", "Every non-in-place DataFrame/Vector method family is re-run with the oracle 'operands cell-for-cell identical after the call (all cell values symbolic) and no result buffer is an operand buffer' (buffer identity in the model, np.shares_memory on each replayed witness)."),
+ "C09": ("§6 C09", "rbind/cbind/update/modify/select/unselect/rename/colnames against a list-of-columns reference for ALL cell values and all choices of column subsets, orders, rename maps (incl. permutations) within the bounds."),
+ "C11": ("§6 C11", "Vector.sort/rank/unique against the statement's counting definitions for ALL element values of each dtype, lengths 0..3 (quick) / 0..4 (thorough), both directions, all three rank methods."),
  "C05": ("§6 C05", "For every pair of frames within the bounds and ALL key and payload cells, the five joins agree with a nested-loop first-match reference (missing keys never match, renamed keys, empty sides) and do not raise."),
 }
 m = {"version": 1, "setup_cmd": "./bootstrap.sh",
